@@ -2191,6 +2191,12 @@ impl ProtocolState {
             }
         }
 
+        // MQTT 3.1.1 requires CleanSession 1 with a zero-length client id [MQTT-3.1.3-7]; the id the
+        // server picked is unknown to us, so there is no session we could rejoin anyway
+        if self.protocol_version == ProtocolVersion::Mqtt311 && connect.client_id.as_ref().map_or(true, |id| id.is_empty()) {
+            connect.clean_start = true;
+        }
+
         Box::new(MqttPacket::Connect(connect))
     }
 
